@@ -2,6 +2,7 @@ package main
 
 import (
 	"fmt"
+	"go/types"
 	"regexp"
 	"strings"
 
@@ -267,23 +268,50 @@ func runC16(p *Program, r *Report) {
 	site.Cond.Atoms(func(a *LAtom) {})
 	balance := false
 	var balanceFn *ssa.Function
-	for _, a := range pv.Atoms(site.Store.Block()) {
-		if a.Pol && a.E.Op == "call" && a.E.Fn != nil && a.E.Fn.Pkg != nil && a.E.Fn.Pkg.Pkg.Path() == modulePath && len(a.E.Args) == 1 && calleeIs(a.E.Args[0], "(*regexp.Regexp).ReplaceAllString") && hasLoop(a.E.Fn) {
+	for _, dg := range s.Dropped {
+		// a helper with a (non-scan) loop, required to hold, applied to the string-stripped selector
+		if dg.Pol && hasLoop(dg.Fn) && len(dg.Args) == 1 && dg.Args[0].Param == 0 && dg.Args[0].Strip != nil && !dg.Args[0].Lower {
 			balance = true
-			balanceFn = a.E.Fn
+			balanceFn = dg.Fn
 		}
 	}
-	r.Check(balance, "C16.R1", cn+"#balance-guard", site.Pos, "a bracket-balance test of the string-stripped selector dominates the construction", "no bracket-balance guard on the stripped selector")
-	if lit, err := p.VarLit("", "matchingBrackets"); err != nil {
-		r.Undec("C16.R1", "safehtml.matchingBrackets", "", err.Error())
-	} else {
-		got := map[int64]int64{}
-		for i, k := range lit.Keys {
-			kk, _ := k.Int()
-			vv, _ := lit.Vals[i].Int()
-			got[kk] = vv
+	// … on every path: the same helper must not also be passed with the opposite outcome
+	for _, dg := range s.Dropped {
+		if balanceFn != nil && dg.Fn == balanceFn && !dg.Pol {
+			balance = false
 		}
-		r.Check(len(got) == 2 && got[')'] == '(' && got[']'] == '[', "C16.R1", "safehtml.matchingBrackets", p.Pos(lit.Pos), "bracket table pairs ) with ( and ] with [", fmt.Sprintf("bracket table is %v", got))
+	}
+	r.Check(balance, "C16.R1", cn+"#balance-guard", site.Pos, "a bracket-balance test of the string-stripped selector is required on every path to the construction", "no bracket-balance guard on the stripped selector")
+	if balanceFn != nil {
+		// the closer→opener table the matcher reads (found by data flow, not by name)
+		var tables []*ssa.Global
+		seenG := map[*ssa.Global]bool{}
+		for _, b := range balanceFn.Blocks {
+			for _, in := range b.Instrs {
+				if u, ok := in.(*ssa.UnOp); ok {
+					if g, ok := u.X.(*ssa.Global); ok && !seenG[g] {
+						if _, isMap := g.Type().(*types.Pointer).Elem().Underlying().(*types.Map); isMap {
+							seenG[g] = true
+							tables = append(tables, g)
+						}
+					}
+				}
+			}
+		}
+		tc := "safehtml." + strings.TrimPrefix(fnName(balanceFn), modulePath+".") + "#bracket-table"
+		if len(tables) != 1 {
+			r.Undec("C16.R1", tc, p.Pos(balanceFn.Pos()), fmt.Sprintf("the bracket matcher reads %d map tables (expected one closer→opener table)", len(tables)))
+		} else if lit, err := p.VarLit("", tables[0].Name()); err != nil {
+			r.Undec("C16.R1", tc, "", err.Error())
+		} else {
+			got := map[int64]int64{}
+			for i, k := range lit.Keys {
+				kk, _ := k.Int()
+				vv, _ := lit.Vals[i].Int()
+				got[kk] = vv
+			}
+			r.Check(len(got) == 2 && got[')'] == '(' && got[']'] == '[', "C16.R1", tc, p.Pos(lit.Pos), "bracket table pairs ) with ( and ] with [", fmt.Sprintf("bracket table is %v", got))
+		}
 	}
 	// ---- R2 language ---------------------------------------------------------
 	per, ok := splitByParam(site.Cond)
